@@ -46,21 +46,23 @@ theorem get_of_set_agree {fam : Fam} {op : OpInst} {st : PState} {i : Nat}
   | some xs => rw [ha i xs h]
 
 theorem build_replayD (D : Defs) (op : OpInst) (fmt : List Dir) (K : List Cls)
-    (hwf : wfD fmt K = true) (hfrag : fragD fmt = true) (hv : ValidD op fmt) (hc : CoversSlots D fmt op) :
+    (hwf : wfD fmt K = true) (hfrag : fragD fmt = true) (hv : ValidD D op fmt) (hc : CoversSlots D fmt op) :
     build D (replayD D op fmt {}) =
       some { operands := op.operands, operandTys := op.operandTys, resultTys := op.resultTys,
              regions := op.regions, succs := op.succs,
              props := (replayD D op fmt {}).props, attrs := (replayD D op fmt {}).attrs } := by
   have agree : ∀ fam, AgreeF fam op (replayD D op fmt {}) :=
     fun fam => agreeF_replayD D op fmt {} fam hfrag hv (agreeF_init fam op)
-  have isset : ∀ fam i, bindsD fam i fmt = true → SetF fam i (replayD D op fmt {}) :=
-    fun fam i hb => setF_replayD D op fmt K {} fam i hwf hfrag hb
+  have isset : ∀ fam i, bindsD fam i fmt = true → i < (opF fam op).length → SetF fam i (replayD D op fmt {}) :=
+    fun fam i hb hi => setF_replayD D op fmt K {} fam i hwf hfrag hb hi
   have hO : buildOperands (replayD D op fmt {}) D.operandKinds.length = some op.operands := by
     unfold buildOperands
     rw [mapM_some_of_forall _ _ (seg op.operands)]
     · rw [← hc.lenO, map_seg_range]
     · intro i hi
-      have := get_of_set_agree (agree .operands) (isset .operands i (hc.operands i (by simpa using hi)))
+      have hi' : i < D.operandKinds.length := by simpa using hi
+      have := get_of_set_agree (agree .operands) (isset .operands i (hc.operands i hi')
+        (by simp only [opF]; rw [hc.lenO]; exact hi'))
       simpa [getF, opF] using this
   have hT : buildOperandTys D (replayD D op fmt {}) op.operands = some op.operandTys := by
     unfold buildOperandTys
@@ -76,7 +78,7 @@ theorem build_replayD (D : Defs) (op : OpInst) (fmt : List Dir) (K : List Cls)
         simp [hc.tysLen i hi']
       | none =>
         rcases hc.operandTys i hi' with hb | ⟨t, ht1, ht2⟩
-        · have := isset .operandTys i hb
+        · have := isset .operandTys i hb (by simp only [opF]; rw [hc.lenT]; exact hi')
           simp [SetF, getF, hg] at this
         · simp only [List.getD_eq_getElem?_getD] at ht1
           simp [ht1, ht2]
@@ -94,7 +96,7 @@ theorem build_replayD (D : Defs) (op : OpInst) (fmt : List Dir) (K : List Cls)
         rfl
       | none =>
         rcases hc.resultTys i hi' with hb | ⟨t, ht1, ht2, ht3⟩
-        · have := isset .resultTys i hb
+        · have := isset .resultTys i hb (by simp only [opF]; rw [hc.lenR]; exact hi')
           simp [SetF, getF, hg] at this
         · simp only [List.getD_eq_getElem?_getD] at ht1 ht2
           simp [ht1, ht2, ht3]
@@ -103,7 +105,9 @@ theorem build_replayD (D : Defs) (op : OpInst) (fmt : List Dir) (K : List Cls)
     rw [mapM_some_of_forall _ _ (seg op.regions)]
     · rw [← hc.lenG, map_seg_range]
     · intro i hi
-      have := get_of_set_agree (agree .regions) (isset .regions i (hc.regions i (by simpa using hi)))
+      have hi' : i < D.regionKinds.length := by simpa using hi
+      have := get_of_set_agree (agree .regions) (isset .regions i (hc.regions i hi')
+        (by simp only [opF]; rw [hc.lenG]; exact hi'))
       simp only [getF, opF] at this
       simp [this]
   have hS : buildSlots (replayD D op fmt {}).succs D.succKinds = some op.succs := by
@@ -111,7 +115,9 @@ theorem build_replayD (D : Defs) (op : OpInst) (fmt : List Dir) (K : List Cls)
     rw [mapM_some_of_forall _ _ (seg op.succs)]
     · rw [← hc.lenS, map_seg_range]
     · intro i hi
-      have := get_of_set_agree (agree .succs) (isset .succs i (hc.succs i (by simpa using hi)))
+      have hi' : i < D.succKinds.length := by simpa using hi
+      have := get_of_set_agree (agree .succs) (isset .succs i (hc.succs i hi')
+        (by simp only [opF]; rw [hc.lenS]; exact hi'))
       simp only [getF, opF] at this
       simp [this]
   simp [build, hO, hT, hR, hG, hS]
